@@ -223,3 +223,122 @@ class LocalProxyInit(Contract):
 
 
 CONTRACTS = [LocalProxyInit()]
+
+
+# ------------------------------------------------------------------------------------------------ extract_version
+class MetaD:
+    """a simulator's meta dict: 'api_version' present or not (symbolic), its value a version string"""
+
+
+class VersionS:
+    """the announced version string; '.'-splitting it and mapping int over the parts gives the int list `seq` (the string
+    operations themselves -- str.split, int() -- are assumed, and exercised by the bounded stand-in contracts.adapters_native)"""
+
+    def __init__(self, seq):
+        self.seq = seq
+
+
+class PartsS:
+    def __init__(self, vs, ints=False):
+        self.vs, self.ints = vs, ints
+
+
+class VersionModel:
+    def __init__(self, sess):
+        self.s = sess
+        sess.models.insert(0, self)
+        sess.vm = self
+        self.has_version = z3.Bool("meta_has_api_version")
+        sess.builtins["map"] = Builtin("map", self._map)
+
+    def _map(self, it, node, f, x):
+        if isinstance(x, PartsS) and not x.ints and isinstance(f, Builtin) and f.name == "int":
+            return PartsS(x.vs, ints=True)
+        raise Unsupported("map(...) of something else than int over the parts of the version string")
+
+    def contains(self, it, container, item, node):
+        if isinstance(container, MetaD):
+            if item == "api_version":
+                return self.has_version
+            raise Unsupported("membership test of another key in meta")
+        return NotImplemented
+
+    def getitem(self, it, obj, idx, node):
+        if isinstance(obj, PartsS) and isinstance(idx, slice) and idx.step is None:
+            from pyvc.values import seq_slice
+            return PartsS(VersionS(seq_slice(obj.vs.seq, idx.start, idx.stop)), obj.ints)
+        if isinstance(obj, MetaD):
+            if idx != "api_version":
+                raise Unsupported("meta[...] of another key")
+            it.check_raise(Not(self.has_version), "KeyError", node, "meta['api_version']")
+            return self._vs
+        return NotImplemented
+
+    def getattr(self, it, obj, name, node):
+        if isinstance(obj, VersionS) and name == "split":
+            def split(it2, n2, sep, *a, obj=obj):
+                if sep != "." or a:
+                    raise Unsupported("version.split with other arguments than ('.')")
+                return PartsS(obj)
+            return Builtin("str.split", split)
+        return NotImplemented
+
+    def to_list(self, it, x, node):
+        if isinstance(x, PartsS) and x.ints:
+            return SymSeq(x.vs.seq.length, x.vs.seq.get, "list")
+        return NotImplemented
+
+
+def configure_version(sess):
+    VersionModel(sess)
+    extract.load_module("mosaik.proxies")
+
+
+class ExtractVersion(Contract):
+    """extract_version(meta): [1] if the simulator announces no api_version, else exactly the int list of ALL '.'-separated parts of the
+    announced string (major, minor and patch level: init_and_get_adapter compares the whole list with the configured version)"""
+    target = "mosaik.proxies.extract_version"
+    property_ids = ["C15"]
+    configure = "configure_version"
+
+    def make_args(self, mk):
+        self._seq = mk.seq("announced_version", "list")
+        mk.s.vm._vs = VersionS(self._seq)
+        return {"meta": MetaD()}
+
+    def setup(self, p, A, mk):
+        self._p = p
+        self._m = mk.s.vm
+
+    def requires(self, A):
+        return self._seq.length >= 1
+
+    def split_post(self, A, result):
+        m = self._m
+        r = result
+        if isinstance(r, (list, tuple)):
+            r = SymSeq.from_tuple(tuple(r), "list")
+        if not isinstance(r, SymSeq):
+            return {"returns_an_int_list": z3.BoolVal(False)}
+        j = z3.Int("j!ev")
+        same = And(r.length == self._seq.length, z3.ForAll([j], Implies(And(j >= 0, j < r.length), r.get(j) == self._seq.get(j))))
+        one = And(r.length == 1, r.get(0) == 1)
+        return {"all_parts_of_the_announced_version_or_1_if_none": z3.If(m.has_version, same, one)}
+
+    def native_search(self, budget):
+        for v in (None, "1", "2", "2.2", "2.10", "3.0", "3.0.1", "3.1.4", "10.2"):
+            yield {"api_version": v}
+
+    def native_call(self, m):
+        if "api_version" not in m:
+            return True, "symbolic counter-models are not replayed (the native search is)"
+        from mosaik.proxies import extract_version
+        meta = {"models": {}}
+        if m["api_version"] is not None:
+            meta["api_version"] = m["api_version"]
+        exp = [1] if m["api_version"] is None else [int(x) for x in m["api_version"].split(".")]
+        r = extract_version(meta)
+        return r == exp, f"extract_version(api_version={m['api_version']!r}) = {r}, expected {exp}"
+
+
+CONTRACTS.append(ExtractVersion())
